@@ -1519,6 +1519,8 @@ impl<'source> FormatItem<'source> {
         let columns_remaining = (options.line_length as usize).saturating_sub(column);
         let too_long = self.line_length() > columns_remaining;
         let force_break = items.iter().any(FormatItem::force_break);
+        #[cfg(koto_verif)]
+        verif_trace::record(self, items, options, column, too_long, force_break);
 
         // Use indent logic if the line is too long, if one of the group contains a forced break,
         // or if the last item is an indented block.
@@ -1961,4 +1963,87 @@ fn first_line_length(s: &str) -> usize {
         .map(|(first, _rest)| first)
         .unwrap_or(s)
         .width()
+}
+
+/// Verification hook (only with `--cfg koto_verif`): records, for every group that `render_group`
+/// lays out, the inputs and the outcome of its single-line / break decision together with the group's
+/// item tree (texts reduced to display widths). Nothing is recorded unless `start()` was called on
+/// this thread.
+#[cfg(koto_verif)]
+pub mod verif_trace {
+    use super::{FormatItem, FormatOptions};
+    use std::cell::RefCell;
+    use std::fmt::Write;
+    use unicode_width::UnicodeWidthChar;
+
+    thread_local! {
+        static TRACE: RefCell<Option<Vec<String>>> = const { RefCell::new(None) };
+    }
+
+    /// Starts recording on this thread (dropping anything recorded before)
+    pub fn start() {
+        TRACE.with(|t| *t.borrow_mut() = Some(Vec::new()));
+    }
+
+    /// Stops recording and returns one line per decision:
+    /// `<line_length> <column> <measured> <too_long> <force_break> <last_is_block> <tree>`
+    pub fn take() -> Vec<String> {
+        TRACE.with(|t| t.borrow_mut().take().unwrap_or_default())
+    }
+
+    fn sexp(item: &FormatItem, out: &mut String) {
+        match item {
+            FormatItem::Char(c) => write!(out, "(c {})", c.width().unwrap_or(0)).unwrap(),
+            FormatItem::OptionalChar(c) => write!(out, "(o {})", c.width().unwrap_or(0)).unwrap(),
+            FormatItem::Str(s) => {
+                write!(out, "(s {} {})", super::first_line_length(s), s.matches('\n').count() + 1).unwrap()
+            }
+            FormatItem::KString(s) => {
+                write!(out, "(s {} {})", super::first_line_length(s), s.matches('\n').count() + 1).unwrap()
+            }
+            FormatItem::Group { items, .. } => {
+                out.push_str("(g");
+                for i in items {
+                    out.push(' ');
+                    sexp(i, out);
+                }
+                out.push(')');
+            }
+            FormatItem::LineBreak => out.push_str("(l)"),
+            FormatItem::GroupBreak(b) => write!(out, "(b {b:?})").unwrap(),
+            FormatItem::Error(_) => out.push_str("(e)"),
+        }
+    }
+
+    pub(super) fn record(
+        group: &FormatItem,
+        items: &[FormatItem],
+        options: &FormatOptions,
+        column: usize,
+        too_long: bool,
+        force_break: bool,
+    ) {
+        TRACE.with(|t| {
+            if let Some(trace) = t.borrow_mut().as_mut() {
+                if trace.len() >= 50_000 {
+                    return;
+                }
+                let mut tree = String::new();
+                sexp(group, &mut tree);
+                if tree.len() > 6000 {
+                    return;
+                }
+                trace.push(format!(
+                    "{} {} {} {} {} {} {}",
+                    options.line_length,
+                    column,
+                    group.line_length(),
+                    too_long as u8,
+                    force_break as u8,
+                    items.last().is_some_and(FormatItem::is_indented_block) as u8,
+                    tree
+                ));
+            }
+        });
+    }
 }
